@@ -135,6 +135,8 @@ Definition wt_prog (p : sprog) (tys : list vty) : bool :=
   forallb (fun d => match sd_init d with Some _ => true | None => false end) (sp_decls p) &&
   nodup_names (map sd_name (sp_decls p)) &&
   forallb (fun d => match tget builtin_tenv (sd_name d) with None => true | Some _ => false end) (sp_decls p) &&
+  (* nor one of the three internal flags (names beginning with "__" are reserved) *)
+  forallb (fun d => negb (existsb (name_eqb (sd_name d)) [flag_n; cont_n; report_n])) (sp_decls p) &&
   negb (Nat.eqb (length (sp_events p)) 0) &&
   ty_events (decl_tenv (sp_decls p) tys ++ builtin_tenv) (sp_events p).
 
